@@ -2,63 +2,133 @@ import KM.Model.PwCache
 /-! Helper lemmas for C07 (nothing here is counted as an obligation). -/
 namespace KM.PwCache
 
-/-! ### the server loop -/
+/-! ### the server × pattern loops -/
 
-theorem loopWith_cons (chk : Srv → Option Bool) (st : Srv) (rest : List Srv) :
-    loopWith chk (st :: rest) = match chk st with
+theorem loopWith_cons {α : Type} (chk : α → Option Bool) (a : α) (rest : List α) :
+    loopWith chk (a :: rest) = match chk a with
       | some v => some v
       | none => loopWith chk rest := rfl
 
-theorem checkServer_up (s : State) (u : User) {pw : Pw} (hpw : pw ≠ 0) :
-    checkServer s .up u pw = some (s.dir u == some pw) := by simp [checkServer, hpw]
+theorem loopWith_all_none {α : Type} (chk : α → Option Bool) (l : List α) (h : ∀ a, chk a = none) :
+    loopWith chk l = none := by
+  induction l with
+  | nil => rfl
+  | cons a rest ih => rw [loopWith_cons, h a]; exact ih
 
-theorem checkServer_down (s : State) (u : User) {pw : Pw} (hpw : pw ≠ 0) :
-    checkServer s .down u pw = none := by simp [checkServer, hpw]
+theorem loopWith_none_or_false {α : Type} (chk : α → Option Bool) (l : List α)
+    (h : ∀ a, chk a = none ∨ chk a = some false) : loopWith chk l = none ∨ loopWith chk l = some false := by
+  induction l with
+  | nil => exact Or.inl rfl
+  | cons a rest ih =>
+    rw [loopWith_cons]
+    rcases h a with h' | h' <;> rw [h']
+    · exact ih
+    · exact Or.inr rfl
 
-theorem checkServer_err (s : State) (u : User) {pw : Pw} (hpw : pw ≠ 0) :
-    checkServer s .err u pw = none := by simp [checkServer, hpw]
+/-- what the patterns yield on a reachable server -/
+def patsValue (s : State) (u : User) (pw : Pw) : Option Bool :=
+  (firstPat s).map (fun p => p == Pat.entry && s.dir u == some pw)
 
-theorem loopWith_check (s : State) (u : User) (pw : Pw) (hpw : pw ≠ 0) (l : List Srv) :
-    loopWith (fun st => checkServer s st u pw) l =
-      if Srv.up ∈ l then some (s.dir u == some pw) else none := by
+theorem loopWith_patAnswer (s : State) (u : User) (pw : Pw) (l : List Pat) :
+    loopWith (patAnswer s u pw) l =
+      (l.find? (fun p => p != Pat.malformed)).map (fun p => p == Pat.entry && s.dir u == some pw) := by
+  induction l with
+  | nil => rfl
+  | cons p rest ih =>
+    rw [loopWith_cons]
+    have e1 : (Pat.entry != Pat.malformed) = true := by decide
+    have e2 : (Pat.noEntry != Pat.malformed) = true := by decide
+    have e3 : (Pat.malformed != Pat.malformed) = false := by decide
+    have e4 : (Pat.noEntry == Pat.entry) = false := by decide
+    cases p with
+    | entry => simp [patAnswer, List.find?, e1]
+    | noEntry => simp [patAnswer, List.find?, e2, e4]
+    | malformed => simp only [patAnswer, ih]; simp [List.find?]
+
+theorem inner_up (s : State) (u : User) {pw : Pw} (hpw : pw ≠ 0) :
+    loopWith (fun p => checkServer s .up p u pw) s.pats = patsValue s u pw := by
+  have : (fun p => checkServer s .up p u pw) = patAnswer s u pw := by
+    funext p; simp [checkServer, hpw]
+  rw [this, loopWith_patAnswer]; rfl
+
+theorem inner_down (s : State) (u : User) {pw : Pw} (hpw : pw ≠ 0) :
+    loopWith (fun p => checkServer s .down p u pw) s.pats = none :=
+  loopWith_all_none _ _ (fun p => by simp [checkServer, hpw])
+
+theorem inner_err (s : State) (u : User) {pw : Pw} (hpw : pw ≠ 0) :
+    loopWith (fun p => checkServer s .err p u pw) s.pats = none :=
+  loopWith_all_none _ _ (fun p => by simp [checkServer, hpw])
+
+theorem outer_check (s : State) (u : User) (pw : Pw) (hpw : pw ≠ 0) (l : List Srv) :
+    loopWith (fun st => loopWith (fun p => checkServer s st p u pw) s.pats) l =
+      if Srv.up ∈ l then patsValue s u pw else none := by
   induction l with
   | nil => simp [loopWith]
   | cons st rest ih =>
     rw [loopWith_cons]
     cases st with
-    | up => simp only [checkServer_up s u hpw]; simp
-    | down => simp only [checkServer_down s u hpw, ih]; simp
-    | err => simp only [checkServer_err s u hpw, ih]; simp
+    | up =>
+      simp only [inner_up s u hpw, ih]
+      cases hv : patsValue s u pw <;> simp
+    | down => simp only [inner_down s u hpw, ih]; simp
+    | err => simp only [inner_err s u hpw, ih]; simp
 
-theorem loopWith_empty_pw (s : State) (u : User) (l : List Srv) :
-    loopWith (fun st => checkServer s st u 0) l = if l = [] then none else some false := by
-  cases l with
-  | nil => simp [loopWith]
-  | cons st rest => simp [loopWith, checkServer]
+theorem firstPat_of_exists {s : State} (h : ∃ p ∈ s.pats, p ≠ Pat.malformed) :
+    ∃ p, firstPat s = some p ∧ p ≠ Pat.malformed := by
+  unfold firstPat
+  cases hf : s.pats.find? (fun p => p != Pat.malformed) with
+  | none =>
+    obtain ⟨p, hp, hne⟩ := h
+    have := List.find?_eq_none.mp hf p hp
+    simp at this
+    exact absurd this hne
+  | some p =>
+    have := List.find?_some hf
+    exact ⟨p, rfl, by simpa using this⟩
+
+theorem firstPat_none_of_not_exists {s : State} (h : ¬ ∃ p ∈ s.pats, p ≠ Pat.malformed) : firstPat s = none := by
+  unfold firstPat
+  apply List.find?_eq_none.mpr
+  intro p hp
+  have : p = Pat.malformed := Classical.byContradiction (fun hne => h ⟨p, hp, hne⟩)
+  simp [this]
 
 theorem loop_of_answers (s : State) (u : User) (pw : Pw) (h : answers s) :
     loop s u pw = some (dirAccepts s u pw) := by
   unfold loop
+  obtain ⟨hup, hex⟩ := h
   by_cases hpw : pw = 0
   · subst hpw
-    rw [loopWith_empty_pw]
-    have : s.srv ≠ [] := by
-      intro he; unfold answers at h; rw [he] at h; cases h
-    simp [this, dirAccepts]
-  · rw [loopWith_check s u pw hpw]
-    unfold answers at h
-    simp [h, dirAccepts, hpw]
+    cases hs : s.srv with
+    | nil => rw [hs] at hup; cases hup
+    | cons st rest =>
+      obtain ⟨p0, hp0, _⟩ := hex
+      cases hp : s.pats with
+      | nil => rw [hp] at hp0; cases hp0
+      | cons p prest =>
+        simp [loopWith, checkServer, dirAccepts]
+  · rw [outer_check s u pw hpw]
+    obtain ⟨p, hfp, hne⟩ := firstPat_of_exists hex
+    have hz : (pw != 0) = true := by simp [hpw]
+    simp only [hup, if_true, patsValue, hfp, Option.map, dirAccepts, hz, Bool.true_and]
+    simp
 
 theorem loop_of_not_answers (s : State) (u : User) (pw : Pw) (h : ¬ answers s) :
     loop s u pw = none ∨ loop s u pw = some false := by
   unfold loop
   by_cases hpw : pw = 0
   · subst hpw
-    rw [loopWith_empty_pw]
-    by_cases he : s.srv = [] <;> simp [he]
-  · rw [loopWith_check s u pw hpw]
-    unfold answers at h
-    simp [h]
+    apply loopWith_none_or_false
+    intro st
+    apply loopWith_none_or_false
+    intro p
+    right; simp [checkServer]
+  · rw [outer_check s u pw hpw]
+    left
+    by_cases hup : Srv.up ∈ s.srv
+    · have hno : ¬ ∃ p ∈ s.pats, p ≠ Pat.malformed := fun hex => h ⟨hup, hex⟩
+      simp [hup, patsValue, firstPat_none_of_not_exists hno]
+    · simp [hup]
 
 theorem loop_some_true (s : State) (u : User) (pw : Pw) (h : loop s u pw = some true) :
     answers s ∧ dirAccepts s u pw = true := by
@@ -242,6 +312,7 @@ theorem inv_step {s : State} (h : Inv s) (op : Op) : Inv (step s op) := by
   | login u pw => exact inv_login h u pw
   | setServer i st => exact inv_of_same h rfl rfl (Nat.le_refl _) (fun _ _ hr => Or.inl hr)
   | setServers l => exact inv_of_same h rfl rfl (Nat.le_refl _) (fun _ _ hr => Or.inl hr)
+  | setPats l => exact inv_of_same h rfl rfl (Nat.le_refl _) (fun _ _ hr => Or.inl hr)
   | changePw u pw => exact inv_of_same h rfl rfl (Nat.le_refl _) (fun _ _ hr => Or.inl hr)
   | setAnon b => exact inv_of_same h rfl rfl (Nat.le_refl _) (fun _ _ hr => Or.inl hr)
   | advance dt => exact inv_of_same h rfl rfl (Nat.le_add_right _ _) (fun _ _ hr => Or.inl hr)
